@@ -783,6 +783,7 @@ type sink struct {
 	partial int // connections that ended inside a frame
 	limit   int // >= 0: stop reading (stall) once the first connection has delivered this many frames
 	ended   int           // connections whose reader has finished (EOF, error, held for good)
+	script  []byte        // fate of connection k: 'R' reset right after the handshake, 'B' black hole (accept, never read); else normal
 	hold    bool          // with limit: only the first connection stops reading, for good (it is never closed by the sink)
 	done    chan struct{} // closed when the trial is over
 }
@@ -852,6 +853,25 @@ func (s *sink) serve(id int, c net.Conn) {
 		}
 	}
 	defer markEnded()
+	s.mu.Lock()
+	mode := byte('N')
+	if id < len(s.script) {
+		mode = s.script[id]
+	}
+	s.mu.Unlock()
+	switch mode {
+	case 'R': // the upstream takes the handshake and resets: nothing is in flight, the sender's next write fails
+		key := make([]byte, len(s.key))
+		_, _ = io.ReadFull(c, key)
+		if tc, ok := c.(*net.TCPConn); ok {
+			_ = tc.SetLinger(0)
+		}
+		return
+	case 'B': // accepts, never reads, never closes
+		markEnded()
+		<-s.done
+		return
+	}
 	s.waitUnstalled()
 	key := make([]byte, len(s.key))
 	// a connection may die (or be reset by the scenario) before the handshake arrived: only bytes that differ count
@@ -970,7 +990,10 @@ func runL2(seed uint64, idx int, o *out, tier string) {
 	//   blocked write so that it reconnects and forwards what it holds.
 	// 7 a sender's address pool holds dead addresses (connection refused) and one live upstream: reconnect must go round the
 	//   pool (addressPool.pick) and reach the live one.
-	scen := []int{0, 4, 1, 5, 2, 7, 6, 3, 4, 1, 5, 2, 7, 4, 5, 6}[(idx/8)%16]
+	// 8 upstream scripts per connection: some connections are reset right after the handshake (the next write fails at once),
+	//   then one connection is a black hole (accepts, never reads), then the upstream is healthy. The write error happens
+	//   within the deadline-refresh period, so the black-hole connection must get its own write deadline.
+	scen := []int{0, 4, 1, 5, 2, 7, 6, 3, 8, 1, 5, 2, 7, 8, 5, 6}[(idx/8)%16]
 	o.Stat(fmt.Sprintf("l2.scenario.%d", scen), 1)
 	cfg := balancer.EgressConfig{HostTag: hostTag, ReconnectDelay: 50 * time.Millisecond, DialTimeout: 5 * time.Second}
 	var e *balancer.Egress
@@ -980,7 +1003,7 @@ func runL2(seed uint64, idx int, o *out, tier string) {
 	mkSinks := func() {
 		for i := range sinks {
 			rb := 0
-			if scen == 5 || scen == 6 {
+			if scen == 5 || scen == 6 || scen == 8 {
 				rb = 4096
 			}
 			sinks[i] = newSink(key, rb)
@@ -994,7 +1017,7 @@ func runL2(seed uint64, idx int, o *out, tier string) {
 			close(s.done)
 		}
 	}()
-	if scen == 6 {
+	if scen == 6 || scen == 8 {
 		cfg.WriteTimeout = stallWriteTimeout
 	}
 	var deadFds []int
@@ -1004,7 +1027,15 @@ func runL2(seed uint64, idx int, o *out, tier string) {
 		}
 	}()
 	livePos := 0
+	nReset := 0
 	switch scen {
+	case 8:
+		nReset = r.Range(0, 2)
+		if (idx/8)%16 == 8 {
+			nReset = 1 // one of the two trials of a rotation is always reset-then-black-hole
+		}
+		sinks[0].script = append(bytes.Repeat([]byte{'R'}, nReset), 'B')
+		e = balancer.VerifNewLive(cfg, []string{sinks[0].addr()}, []string{sinks[1].addr()})
 	case 7:
 		// dead = a TCP socket bound to a loopback port but not listening: connecting is refused at once and nobody else can take the port
 		nDead := r.Range(1, 3)
@@ -1070,6 +1101,7 @@ func runL2(seed uint64, idx int, o *out, tier string) {
 	desc := []string{}
 	lastPartial := false
 	var stallStart time.Time
+	scriptReached, blackHoleLeft := false, false
 	switch scen {
 	case 0, 3:
 		nb := r.Range(1, 5)
@@ -1170,6 +1202,43 @@ func runL2(seed uint64, idx int, o *out, tier string) {
 		waitRe := stallStart.Add(10 * stallWriteTimeout)
 		for sinks[0].connCount() < 2 && time.Now().Before(waitRe) {
 			time.Sleep(10 * time.Millisecond)
+		}
+	case 8:
+		desc = append(desc, fmt.Sprintf("upstream script %q per connection (R reset after handshake, B black hole, then healthy) ; WriteTimeout=%v", string(sinks[0].script), stallWriteTimeout))
+		waitConn := func(n int, budget time.Duration) bool {
+			dl := time.Now().Add(budget)
+			for sinks[0].connCount() < n && time.Now().Before(dl) {
+				time.Sleep(5 * time.Millisecond)
+			}
+			return sinks[0].connCount() >= n
+		}
+		ok := true
+		for j := 0; j < nReset && ok; j++ {
+			// connection j is reset after the handshake; a batch that is written at once (>= 20 % of the buffer) hits it
+			if ok = waitConn(j+1, timerBudget); ok {
+				time.Sleep(100 * time.Millisecond)
+				k := r.Range(thr, thr+15)
+				desc = append(desc, fmt.Sprintf("conn %d reset, burst=%d", j, k))
+				burst(k)
+			}
+		}
+		// the black hole: enough large packets to fill the kernel buffers, pushed as soon as it has accepted
+		if ok = ok && waitConn(nReset+1, timerBudget); ok {
+			k := r.Range(122, 135)
+			size := r.Range(52000, 60000)
+			desc = append(desc, fmt.Sprintf("conn %d black hole, burst=%d x %d bytes", nReset, k, size))
+			for j := 0; j < k; j++ {
+				push(size + r.Range(0, 500))
+			}
+			stallStart = time.Now()
+			// expected: the write deadline of the black-hole connection fires after <= WriteTimeout, next connection 50 ms later
+			blackHoleLeft = waitConn(nReset+2, 10*stallWriteTimeout)
+		}
+		scriptReached = ok
+		if blackHoleLeft {
+			k := r.Range(1, 5)
+			desc = append(desc, fmt.Sprintf("healthy again, marker burst=%d", k))
+			burst(k)
 		}
 	case 7:
 		k := []int{r.Range(1, 5), r.Range(6, thr-1), r.Range(thr, 2*thr)}[r.Pick(2, 2, 1)]
@@ -1324,14 +1393,17 @@ func runL2(seed uint64, idx int, o *out, tier string) {
 			o.NT("e2e-idle-after-partial-batch")
 		}
 		_ = maxLat
-	case 4, 5, 6:
+	case 4, 5, 6, 8:
 		// exact accounting: nothing was in flight when the write failed (4) / everything the kernel accepted is read (5), so
 		// every accepted packet is received exactly once, in acceptance order, or is the one packet given up by a counted
 		// write error ("not resend for last")
 		lastPush := pushes[len(pushes)-1].at
 		deadline := lastPush.Add(timerBudget + 5*time.Second)
-		if scen == 5 || scen == 6 {
+		if scen == 5 || scen == 6 || scen == 8 {
 			deadline = time.Now().Add(40 * time.Second) // ~10 MB through a 4 KiB receive window; normally 1-3 s
+		}
+		if scen == 8 && !blackHoleLeft {
+			deadline = time.Now() // the sender never left the black hole (or the script was not reached): nothing to wait for
 		}
 		if scen == 6 && sinks[0].connCount() < 2 {
 			deadline = time.Now() // the sender never came back within 10x WriteTimeout: nothing more to wait for
@@ -1371,6 +1443,13 @@ func runL2(seed uint64, idx int, o *out, tier string) {
 		lost := int64(st.ForwardedPackets) - int64(len(data))
 		if st.ForwardedPackets+st.DroppedPackets != uint64(len(pushes)) || st.DroppedPackets != 0 {
 			o.Viol("e2e-uncounted", "%d packets handed in, forwarded=%d dropped=%d (the buffers never filled)", len(pushes), st.ForwardedPackets, st.DroppedPackets)
+		} else if scen == 8 && !scriptReached {
+			o.Stat("l2.scen8.script-not-reached", 1) // a reset connection swallowed a write silently (TCP); nothing to judge
+		} else if scen == 8 && !blackHoleLeft {
+			// ---- direct oracle: bounded delay under upstream connection failures (reset, then a stalled upstream)
+			b0 := balancer.VerifBuf(e, 0)
+			o.Viol("stalled-forever-after-reconnect", "after a write error the sender reconnected to an upstream that accepts but never reads; %v later (WriteTimeout is %v) it is still blocked on that connection: connections seen by the upstream %d (wanted %d), write errors %d, %d of %d accepted packets not forwarded (read batch %d..%d, write buffer %d) (scenario 8: %s)",
+				time.Since(stallStart).Round(time.Second), stallWriteTimeout, sinks[0].connCount(), nReset+2, st.WriteErrors, lost, st.ForwardedPackets, b0.Ri, b0.Rm, b0.Wi, strings.Join(desc, " ; "))
 		} else if timedOut && !(scen == 6 && (sinks[0].connCount() < 2 || st.WriteErrors == 0)) {
 			o.Viol("e2e-no-recovery", "the last accepted packet did not reach the upstream within the budget after the connection failure (delivered %d of %d forwarded, write errors %d; scenario %d: %s)",
 				len(data), st.ForwardedPackets, st.WriteErrors, scen, strings.Join(desc, " ; "))
@@ -1379,7 +1458,7 @@ func runL2(seed uint64, idx int, o *out, tier string) {
 			b0 := balancer.VerifBuf(e, 0)
 			o.Viol("stalled-upstream-blocks-sender", "the upstream stopped reading the primary sender's connection without closing it; %v later (WriteTimeout is %v) the sender has neither given up the write (write errors: %d) nor reconnected (connections seen by the upstream: %d): %d of %d accepted packets are still held (read batch %d..%d, write buffer %d) and will not be forwarded before the kernel's TCP timeout (scenario 6: %s)",
 				time.Since(stallStart).Round(time.Second), stallWriteTimeout, st.WriteErrors, sinks[0].connCount(), lost, st.ForwardedPackets, b0.Ri, b0.Rm, b0.Wi, strings.Join(desc, " ; "))
-		} else if scen == 5 || scen == 6 {
+		} else if scen == 5 || scen == 6 || scen == 8 {
 			// packets accepted by the kernel but not read before the reset are lost in TCP; their bytes cannot exceed the
 			// sender's send-buffer limit (+ the small fixed receive buffer); each counted write error gives up one more packet
 			var lostBytes int64
@@ -1393,7 +1472,11 @@ func runL2(seed uint64, idx int, o *out, tier string) {
 				}
 			}
 			o.Stat(fmt.Sprintf("l2.scen%d.lost-packets", scen), lost)
-			if bound := inflightBound(); bound > 0 && lostBytes > bound+int64(st.WriteErrors)*int64(c.PktBodyMax+c.PktHeadLen) {
+			failedConns := int64(1)
+			if scen == 8 {
+				failedConns = int64(nReset + 1) // every given-up connection may have swallowed what the kernel had accepted
+			}
+			if bound := inflightBound() * failedConns; bound > 0 && lostBytes > bound+int64(st.WriteErrors)*int64(c.PktBodyMax+c.PktHeadLen) {
 				o.Viol("e2e-lost", "%d accepted packets (%d bytes, first missing seq: %s) never reached the upstream after a connection failure inside a batch; at most %d bytes can have been in flight on the failed connection and %d write errors were counted (scenario %d: %s)",
 					lost, lostBytes, strings.Join(miss, ","), bound, st.WriteErrors, scen, strings.Join(desc, " ; "))
 			}
@@ -1415,6 +1498,9 @@ func runL2(seed uint64, idx int, o *out, tier string) {
 		}
 		if scen == 6 {
 			o.NT("e2e-stalled-upstream")
+		}
+		if scen == 8 && scriptReached {
+			o.NT(fmt.Sprintf("e2e-reset-x%d-then-black-hole", nReset))
 		}
 	case 2:
 		// after the resets: exactness/order of whatever arrived, and the sender recovers: a later packet gets through
